@@ -4,7 +4,7 @@
 import Driver.Common
 import Model.Base64
 import Model.Time
-import Model.CastGen
+import Model.CastMerge
 import Model.Template
 import Model.LineSpec
 
@@ -279,14 +279,14 @@ def judge (prop : String) (what : String) (m : Outcome (Bytes × Option ErrClass
       ⟨tag, s!"{what} impl [{implS}] model [{ms}] violates {prop}: key={c}"⟩
 
 def runLine (prop tiS toS lineS extS implS : String) : Result :=
-  let env : Env := ⟨genTables, parseExt extS⟩
+  let env : Env := ⟨drvTables, parseExt extS⟩
   match tmplOf env tiS, tmplOf env toS, unhexTok lineS with
   | some ti, some to, some line =>
     judge prop s!"line ti=[{tiS}] to=[{toS}] in={lineS}" (jlLine env ti to line) implS (colsOf toS) line
   | _, _, _ => ⟨"B", "cannot parse templates or line"⟩
 
 def runEmit (prop toS valS extS implS : String) : Result :=
-  let env : Env := ⟨genTables, parseExt extS⟩
+  let env : Env := ⟨drvTables, parseExt extS⟩
   match tmplOf env toS, Dyn.parse? valS with
   | some to, some v =>
     -- JSON text handed to Export: the emitted line is judged against the rendering template (C03, C04)
@@ -339,7 +339,7 @@ def c02Violation (input : Bytes) (first : Impl) (second : Option Impl) : Option 
     | _ => some "no-trailing-newline"
 
 def runRoundTrip (lineS domS extS firstS secondS : String) : Result :=
-  let env : Env := ⟨genTables, parseExt extS⟩
+  let env : Env := ⟨drvTables, parseExt extS⟩
   match unhexTok lineS, parseImpl firstS with
   | some line, some first =>
     let second := if secondS == "-" then none else parseImpl secondS
@@ -367,7 +367,7 @@ def runRoundTrip (lineS domS extS firstS secondS : String) : Result :=
 
 /-- accept \t C16 \t ti \t line \t ext \t "<ok|err cls|panic> rownil=<b> agree=<b>" \t "govalid=<b>" -/
 def runAccept (tiS lineS extS implS goS : String) : Result :=
-  let env : Env := ⟨genTables, parseExt extS⟩
+  let env : Env := ⟨drvTables, parseExt extS⟩
   match tmplOf env tiS, unhexTok lineS with
   | some ti, some line =>
     let its := toks implS
